@@ -70,6 +70,19 @@ def main():
              'struct S { int a : 40; };\n', 'int main(void) { goto nowhere; }\n', '\xef\xbb\xbfint main(void) { return 0; }\r\n', 'int main(void) { switch (1) { case 1: case 1: ; } }\n']
     for i, t in enumerate(extra):
         f = os.path.join(wd, 'x%d.c' % i); open(f, 'wb').write(t.encode('latin-1')); inputs.append((f, []))
+    # bytes >= 0x80 in every place a byte can stand (after a backslash in string and character literals of every prefix, inside literals,
+    # identifiers and comments): a table indexed by a (signed) char reads whatever lies in front of it - other data in each build
+    hb = []
+    for b in list(range(0x80, 0x100, 5)) + [0x80, 0xbf, 0xc3, 0xe2, 0xf0, 0xff]:
+        ch = bytes([b])
+        hb.append(b'char s%d[] = "\\' + ch + b'z"; char t%d[] = "a' % b + ch + b'b"; int c%d = \'\\' % b + ch + b'\'; /* ' + ch + b' */ // ' + ch + b'\n')
+        hb[-1] = hb[-1].replace(b'char s%d', b'char s%d' % b, 1).replace(b'int c%d', b'int c%d' % b, 1)
+    hb.append('int caf\u00e9 = 1; char *u = u8"\u00e9\\\u00e9"; int w = L\'\u00e9\';\n'.encode('utf-8'))
+    fhb = os.path.join(wd, 'highbytes.c'); open(fhb, 'wb').write(b''.join(hb)); inputs.append((fhb, []))
+    # erroneous inputs with SEVERAL offending operands: which one is reported must not depend on the build
+    for i, t in enumerate(['int g; int h; static int x = g + h;\n', 'int g, h; int a[g * h];\n', 'int g, h; enum { E = g < h };\n', 'int g; double d; static int y = (g & 1) | (int)d;\n', 'int g, h; int f(int x) { switch (x) { case g - h: return 1; } return 0; }\n',
+                           'int g, h; struct S { int b : g ^ h; };\n', 'int g, h; static int z = g == h ? g : h;\n', 'int g, h; static long q = (g << h) + (g >> h) + (g % h) + (g / h);\n']):
+        f = os.path.join(wd, 'ord%d.c' % i); open(f, 'w').write(t); inputs.append((f, []))
     fcp = os.path.join(wd, 'constpos.c'); open(fcp, 'w').write(const_positions_program()); inputs.append((fcp, []))
     optsets = [['-S'], ['-E'], ['-S', '-fPIC'], ['-S', '-fno-common'], ['-E', '-DNDEBUG', '-DX=(1+2)', '-UGUARD_UNUSED'], ['-S', '-g']] if not run.quick() else [['-S'], ['-E'], ['-S', '-fPIC']]
 
